@@ -36,6 +36,7 @@ def main():
     ap.add_argument("--checks", default="")
     ap.add_argument("--seeds", default="0")
     ap.add_argument("--skip-suite", action="store_true")
+    ap.add_argument("--commit", default="HEAD", help="commit of /repo the patch is applied to (default: HEAD)")
     args = ap.parse_args()
     src = os.path.abspath(args.dir)
     patch = os.path.join(src, "patch.diff")
@@ -52,7 +53,8 @@ def main():
         out["suite_note"] = "suite result carried over from an earlier evaluation of the same patch"
     tree = tempfile.mkdtemp(prefix="vf-seed-", dir="/tmp")
     os.rmdir(tree)
-    rc, txt = sh(["git", "-C", "/repo", "worktree", "add", "-q", "--detach", tree, "HEAD"])
+    rc, txt = sh(["git", "-C", "/repo", "worktree", "add", "-q", "--detach", tree, args.commit])
+    out["repo_commit"] = sh(["git", "-C", "/repo", "rev-parse", "--short", args.commit])[1].strip()
     if rc:
         print(txt)
         return 3
